@@ -4,18 +4,28 @@ import (
 	"encoding/json"
 	"errors"
 	"fmt"
+	"reflect"
 	"strings"
 	"time"
 
 	"github.com/streamingfast/bstream"
 	"github.com/streamingfast/bstream/forkable"
 	pbbstream "github.com/streamingfast/bstream/pb/sf/bstream/v1"
+	"google.golang.org/protobuf/proto"
+	"google.golang.org/protobuf/types/known/anypb"
 	"google.golang.org/protobuf/types/known/timestamppb"
 )
 
 // C17: gates forward a suffix of their input.  One case = one gate object fed one sequence of
 // (block, step, block age) events; the observation is, per call, whether the wrapped handler was
 // called with the very same block/object, what kind of value came back, and the trip count.
+//
+// W3 (conclusion / projection audit, notes_proof_W3/notes_C17.md): "the very same block/object" and
+// "unchanged" are now the whole block message and the whole ForkableObject (snapshot comparison at
+// the handler call, after the call and after the run), the handler's error is compared by identity
+// per call, the trip function must run before the block is handed on, the wall-clock kinds are
+// driven up to the threshold itself, ids close to the target / nil obj / blocks without timestamp /
+// 300 held blocks are generated.
 
 type c17Ev struct {
 	ID    string `json:"id"`
@@ -34,26 +44,58 @@ type c17Input struct {
 	ThrMs    int64   `json:"thr_ms"`    // timeToRealtime / threshold
 	HFlags   []bool  `json:"hflags"`    // k-th handler call fails
 	Events   []c17Ev `json:"events"`
+	// W3: what is passed as obj with the k-th event: 0 / missing = a *ForkableObject carrying Step, 1 = nil,
+	// 2 = a value that is not a ForkableObject (kinds that do not look at the step only: the
+	// irreversible gates type-assert obj)
+	ObjKinds []int `json:"obj_kinds,omitempty"`
+	// W3: the k-th block carries no timestamp (kinds that do not read the block time only)
+	NoTS []bool `json:"no_ts,omitempty"`
 }
+
+func (in *c17Input) objKind(i int) int {
+	if i < len(in.ObjKinds) {
+		return in.ObjKinds[i]
+	}
+	return 0
+}
+func (in *c17Input) noTS(i int) bool { return i < len(in.NoTS) && in.NoTS[i] }
 
 type c17Obs struct {
 	Calls  [][3]int `json:"calls"` // f, r, t per call
 	DefMax int      `json:"defmax"`
 	Panic  string   `json:"panic,omitempty"`
+	Why    []string `json:"why,omitempty"` // W3: for the replay reader: why a call was recorded as f = 2 / t >= 10
 }
 
 const c17Zero64 = "0000000000000000000000000000000000000000000000000000000000000000"
 
-// wall-clock driven kinds need the age to be far from the threshold
-const c17MarginMs = 60_000
+// wall-clock driven kinds (RealtimeGate, TimeThresholdGator read time.Now themselves).  W3: the block of
+// call i is stamped `now - age` immediately before call i, so the gate measures age + (the few
+// microseconds until it reads the clock): an age >= threshold is NOT real time whatever the delay
+// (exact, margin 0); an age below the threshold is real time unless the process stalls for
+// threshold - age between two adjacent statements, hence the margin on that side only.
+// (Before W3: one clock reading per case and 60 s on both sides; a comparison that was off by
+// less than a minute, e.g. on a rounded delta, passed.)
+const c17MarginBelowMs = 10_000
 const c17MaxMs = int64(1) << 40 // ~34 years
 
-var c17ErrHandler = errors.New("c17 handler error")
+// W3: every failing handler call returns a value of its own (see lastHErr in c17Exec): "its result is
+// returned" means the result of THIS call, not an error the handler returned earlier
+func c17NewHandlerErr(k int) error {
+	return errors.New(fmt.Sprintf("c17 handler error of handler call %d", k))
+}
 
 var c17Kinds = map[string]string{"num": "KNum", "id": "KId", "irrnum": "KIrrNum", "irrid": "KIrrId",
 	"realtime": "KRealtime", "tripper": "KTripper", "timegator": "KTimeGator", "numgator": "KNumGator", "minfilter": "KMinFilter"}
 
 func c17UsesWallClock(kind string) bool { return kind == "realtime" || kind == "timegator" }
+func c17ReadsTime(kind string) bool {
+	return kind == "realtime" || kind == "timegator" || kind == "tripper"
+}
+func c17AssertsForkable(kind string) bool { return kind == "irrnum" || kind == "irrid" }
+
+// a value that is not a *ForkableObject (comparable by pointer)
+type c17PlainObj struct{ I int }
 
 func c17Validate(in *c17Input) error {
 	if _, ok := c17Kinds[in.Kind]; !ok {
@@ -62,7 +104,7 @@ func c17Validate(in *c17Input) error {
 	if in.ThrMs > c17MaxMs || in.ThrMs < -c17MaxMs {
 		return fmt.Errorf("threshold out of range")
 	}
-	for _, e := range in.Events {
+	for i, e := range in.Events {
 		if e.Step < 0 {
 			return fmt.Errorf("negative step")
 		}
@@ -71,12 +113,18 @@ func c17Validate(in *c17Input) error {
 		}
 		if c17UsesWallClock(in.Kind) {
 			d := e.AgoMs - in.ThrMs
-			if d < 0 {
-				d = -d
+			if d < 0 && -d < c17MarginBelowMs {
+				return fmt.Errorf("block age less than %d ms below the threshold: not decidable against the wall clock", c17MarginBelowMs)
 			}
-			if d < c17MarginMs {
-				return fmt.Errorf("block age within %d ms of the threshold: not decidable against the wall clock", c17MarginMs)
-			}
+		}
+		if in.objKind(i) < 0 || in.objKind(i) > 2 {
+			return fmt.Errorf("unknown obj kind")
+		}
+		if in.objKind(i) != 0 && c17AssertsForkable(in.Kind) {
+			return fmt.Errorf("the irreversible gates type-assert obj: another dynamic type is outside the property's quantifier")
+		}
+		if in.noTS(i) && c17ReadsTime(in.Kind) {
+			return fmt.Errorf("this kind reads the block time: a block without timestamp is outside the documented assumptions")
 		}
 	}
 	return nil
@@ -99,10 +147,57 @@ func c17Exec(raw json.RawMessage) (*Case, error) {
 	}
 	blks := make([]*pbbstream.Block, n)
 	objs := make([]interface{}, n)
+	// W3: "unchanged" = the whole block message and the whole object, not four fields: every block carries
+	// a payload and the deprecated fields, every ForkableObject its multi-block step fields, and a
+	// snapshot taken right before the call is compared when the handler is called and after the
+	// call returned
+	blkSnap := make([]*pbbstream.Block, n)
+	fobjSnap := make([]forkable.ForkableObject, n)
 	for i, e := range in.Events {
 		t := base.Add(-time.Duration(e.AgoMs) * time.Millisecond)
-		blks[i] = &pbbstream.Block{Id: e.ID, Number: e.Num, Timestamp: timestamppb.New(t), ParentId: "p" + e.ID, LibNum: 7}
-		objs[i] = forkable.VerifC17ForkableObject(bstream.StepType(e.Step), i)
+		blks[i] = &pbbstream.Block{Id: e.ID, Number: e.Num, Timestamp: timestamppb.New(t), ParentId: "p" + e.ID, LibNum: 7,
+			PayloadKind: pbbstream.Protocol(1 + i%3), PayloadVersion: int32(1 + i%5), PayloadBuffer: []byte("buf-" + e.ID),
+			HeadNum: e.Num + 3, ParentNum: e.Num - 1,
+			Payload: &anypb.Any{TypeUrl: "type.googleapis.com/sf.bstream.v1.verif.c17", Value: []byte(fmt.Sprintf("payload-%d-%s", i, e.ID))}}
+		if in.noTS(i) {
+			blks[i].Timestamp = nil
+		}
+		switch in.objKind(i) {
+		case 0:
+			fo := forkable.VerifC17ForkableObject(bstream.StepType(e.Step), i)
+			fo.StepCount = 2 + i%3
+			fo.StepIndex = 1 + i%2
+			fo.StepBlocks = []*bstream.PreprocessedBlock{{Block: blks[i], Obj: i}, {Block: blks[0], Obj: -1}}
+			objs[i] = fo
+		case 1:
+			objs[i] = nil
+		case 2:
+			objs[i] = &c17PlainObj{I: i}
+		}
+	}
+	snapshot := func(i int) {
+		blkSnap[i] = proto.Clone(blks[i]).(*pbbstream.Block)
+		if fo, ok := objs[i].(*forkable.ForkableObject); ok {
+			fobjSnap[i] = *fo
+			fobjSnap[i].StepBlocks = append([]*bstream.PreprocessedBlock(nil), fo.StepBlocks...)
+		}
+	}
+	// "" when block i and its object still are what was put in
+	changed := func(i int) string {
+		if !proto.Equal(blks[i], blkSnap[i]) {
+			return "block message differs from the one put in: " + blks[i].String()
+		}
+		switch o := objs[i].(type) {
+		case *forkable.ForkableObject:
+			if !reflect.DeepEqual(*o, fobjSnap[i]) {
+				return fmt.Sprintf("ForkableObject differs from the one put in: %+v", *o)
+			}
+		case *c17PlainObj:
+			if o.I != i {
+				return "plain object changed"
+			}
+		}
+		return ""
 	}
 
 	// the wrapped handler
@@ -112,16 +207,24 @@ func c17Exec(raw json.RawMessage) (*Case, error) {
 	}
 	var calls []call
 	total := 0
+	var lastHErr error  // what the handler returned during the current gate call, when it failed
+	cur := -1           // index of the event being processed
+	changedAtCall := "" // W3: content seen BY THE HANDLER (a gate could restore it before returning)
 	handler := bstream.HandlerFunc(func(blk *pbbstream.Block, obj interface{}) error {
 		calls = append(calls, call{blk, obj})
+		if cur >= 0 && changedAtCall == "" {
+			changedAtCall = changed(cur)
+		}
 		k := total
 		total++
 		if k < len(in.HFlags) && in.HFlags[k] {
-			return c17ErrHandler
+			lastHErr = c17NewHandlerErr(k)
+			return lastHErr
 		}
 		return nil
 	})
 	trips := 0
+	tripLate := false // W3: tripFunc ran after the block had been handed on
 	thr := time.Duration(in.ThrMs) * time.Millisecond
 	gt := bstream.GateType(in.GateType)
 
@@ -169,7 +272,12 @@ func c17Exec(raw json.RawMessage) (*Case, error) {
 		case "realtime":
 			process = bstream.NewRealtimeGate(thr, handler).ProcessBlock
 		case "tripper":
-			g := bstream.NewRealtimeTripper(thr, func() { trips++ }, handler)
+			g := bstream.NewRealtimeTripper(thr, func() {
+				trips++
+				if len(calls) > 0 {
+					tripLate = true
+				}
+			}, handler)
 			bstream.VerifC17SetTripperNow(g, func() time.Time { return base })
 			process = g.ProcessBlock
 		case "minfilter":
@@ -184,10 +292,19 @@ func c17Exec(raw json.RawMessage) (*Case, error) {
 			}
 		}
 
+		wall := c17UsesWallClock(in.Kind)
 		for i := range in.Events {
 			calls = calls[:0]
 			trips = 0
+			tripLate = false
+			changedAtCall = ""
+			lastHErr = nil
+			cur = i
 			f, r := 0, 0
+			if wall {
+				blks[i].Timestamp = timestamppb.New(time.Now().Add(-time.Duration(in.Events[i].AgoMs) * time.Millisecond))
+			}
+			snapshot(i)
 			if pass != nil {
 				if pass(blks[i]) {
 					f = 1
@@ -197,7 +314,7 @@ func c17Exec(raw json.RawMessage) (*Case, error) {
 				switch {
 				case err == nil:
 					r = 0
-				case err == c17ErrHandler:
+				case lastHErr != nil && err == lastHErr:
 					r = 2
 				default:
 					r = 1
@@ -213,12 +330,36 @@ func c17Exec(raw json.RawMessage) (*Case, error) {
 			}
 			// "unchanged": the block and the object still carry what was put in
 			e := in.Events[i]
-			fo := objs[i].(*forkable.ForkableObject)
-			if blks[i].Id != e.ID || blks[i].Number != e.Num || blks[i].ParentId != "p"+e.ID || blks[i].LibNum != 7 ||
-				fo.Step() != bstream.StepType(e.Step) || fo.Obj != i {
+			if blks[i].Id != e.ID || blks[i].Number != e.Num || blks[i].ParentId != "p"+e.ID || blks[i].LibNum != 7 {
 				f = 2
 			}
-			obs.Calls = append(obs.Calls, [3]int{f, r, trips})
+			if fo, ok := objs[i].(*forkable.ForkableObject); ok && (fo.Step() != bstream.StepType(e.Step) || fo.Obj != i) {
+				f = 2
+			}
+			if why := changed(i); why != "" {
+				f = 2
+				obs.Why = append(obs.Why, fmt.Sprintf("call %d: after the call: %s", i, why))
+			}
+			if changedAtCall != "" {
+				f = 2
+				obs.Why = append(obs.Why, fmt.Sprintf("call %d: at the handler call: %s", i, changedAtCall))
+			}
+			t := trips
+			if tripLate {
+				// the trip function must have run BEFORE the first real-time block is handed on
+				// (C17_tripper, Model.Gates.tripper_step); 10+ is no value the model produces
+				t += 10
+				obs.Why = append(obs.Why, fmt.Sprintf("call %d: tripFunc ran after the handler call", i))
+			}
+			obs.Calls = append(obs.Calls, [3]int{f, r, t})
+		}
+		// W3: a gate keeps no block: nothing that went in (forwarded or held) is altered by a LATER call either
+		cur = -1
+		for i := range obs.Calls {
+			if why := changed(i); why != "" && obs.Calls[i][0] != 2 {
+				obs.Calls[i][0] = 2
+				obs.Why = append(obs.Why, fmt.Sprintf("call %d: altered by a later call: %s", i, why))
+			}
 		}
 	}()
 
@@ -353,16 +494,13 @@ func c17GenEvents(r *Rng, kind string, first uint64, thr int64) []c17Ev {
 	case 2:
 		age = thr + 1000*3_600_000
 	case 3:
-		age = thr - 2*c17MarginMs
+		age = thr - 120_000
 	}
 	clampAge := func(a int64) int64 {
 		if wall {
 			d := a - thr
-			if d >= 0 && d < c17MarginMs {
-				return thr + c17MarginMs
-			}
-			if d < 0 && -d < c17MarginMs {
-				return thr - c17MarginMs
+			if d < 0 && -d < c17MarginBelowMs {
+				return thr - c17MarginBelowMs
 			}
 		}
 		return a
@@ -385,6 +523,11 @@ func c17GenEvents(r *Rng, kind string, first uint64, thr int64) []c17Ev {
 		}
 		if !wall && r.Chance(15) {
 			age = thr + int64(r.Intn(5)) - 2 // exact boundary (controllable clock only)
+		}
+		if wall && r.Chance(15) {
+			// W3: close to the threshold against the wall clock too: exactly at it and just above (never
+			// real time), and from 10 s below it (real time)
+			age = thr + []int64{0, 1, 400, 29_000, 31_000, 59_000, -10_000, -10_001, -29_000, -31_000, -59_000}[r.Intn(11)]
 		}
 		e.AgoMs = clampAge(age)
 		if withSteps && r.Chance(15) {
@@ -492,6 +635,33 @@ func c17Gen(r *Rng, i int, tier string) any {
 			in.TID = in.Events[r.Intn(n)].ID
 		}
 	}
+	// W3: blocks whose id is NOT the target but close to it (other letter case, 0x prefix, one character more
+	// or less, surrounding space): an id gate must treat them as any other block
+	if (in.Kind == "id" || in.Kind == "irrid") && in.TID != "" && r.Chance(25) && n > 0 {
+		near := []string{strings.ToUpper(in.TID), "0x" + in.TID, in.TID + "0", in.TID[:len(in.TID)-1], " " + in.TID, in.TID + " ",
+			strings.TrimPrefix(in.TID, "0"), "0" + in.TID}
+		for j := range in.Events {
+			if r.Chance(25) {
+				in.Events[j].ID = near[r.Intn(len(near))]
+			}
+		}
+	}
+	// W3: obj is not always a ForkableObject (the gates of package bstream hand it on untouched), and a block
+	// need not carry a timestamp where the gate has no business reading it
+	if !c17AssertsForkable(in.Kind) && r.Chance(15) && n > 0 {
+		in.ObjKinds = make([]int, n)
+		for j := range in.ObjKinds {
+			if r.Chance(50) {
+				in.ObjKinds[j] = 1 + r.Intn(2)
+			}
+		}
+	}
+	if !c17ReadsTime(in.Kind) && r.Chance(12) && n > 0 {
+		in.NoTS = make([]bool, n)
+		for j := range in.NoTS {
+			in.NoTS[j] = r.Chance(50)
+		}
+	}
 	// malformed stream: ids that collide across heights, empty ids, arbitrary steps
 	if r.Chance(6) && n > 0 {
 		for j := range in.Events {
@@ -523,6 +693,7 @@ func c17Corpus() []any {
 	irr := []c17Ev{{"00000005a", 5, 1, 0}, {"00000006a", 6, 1, 0}, {"00000004a", 4, 16, 0}, {"00000007a", 7, 1, 0},
 		{"00000005a", 5, 16, 0}, {"00000008a", 8, 1, 0}, {"00000006a", 6, 16, 0}}
 	many := c17Many(60)
+	long := c17Many(300) // W3: far more held blocks than a one-byte counter can count
 	low := []c17Ev{{"00000002a", 2, 16, 0}, {"00000003a", 3, 16, 0}, {"00000004a", 4, 16, 0}}
 	ages := []c17Ev{{"00000002a", 2, 1, 5 * H}, {"00000003a", 3, 1, 3 * H}, {"00000004a", 4, 1, 0}, {"00000005a", 5, 1, 4 * H}, {"00000006a", 6, 1, -2 * H}}
 	exact := []c17Ev{{"00000002a", 2, 1, 3000}, {"00000003a", 3, 1, 1000}, {"00000004a", 4, 1, 999}, {"00000005a", 5, 1, 5000}, {"00000006a", 6, 1, -2000}}
@@ -547,6 +718,20 @@ func c17Corpus() []any {
 		c17Input{Kind: "realtime", ThrMs: H, Events: ages, HFlags: []bool{true, false, true}},
 		c17Input{Kind: "tripper", ThrMs: 1000, Events: exact},
 		c17Input{Kind: "minfilter", TNum: 3, Events: []c17Ev{{"2a", 2, 1, 0}, {"3a", 3, 1, 0}, {"2b", 2, 1, 0}, {"4a", 4, 1, 0}}},
+		// W3: the hold-off failure goes on for as long as the gate is closed (300 held blocks, limits 5 and 200)
+		c17Input{Kind: "num", First: 2, TNum: 1_000_000, GateType: 0, Events: long, MaxHold: ip(5)},
+		c17Input{Kind: "id", TID: "nope", GateType: 1, Events: long, MaxHold: ip(200)},
+		c17Input{Kind: "irrnum", First: 2, TNum: 1_000_000, GateType: 1, Events: long, MaxHold: ip(200)},
+		c17Input{Kind: "irrid", TID: "nope", GateType: 0, Events: long, MaxHold: ip(5)},
+		// W3: ids close to the target, nil / foreign obj, blocks without timestamp
+		c17Input{Kind: "id", TID: "00000004a", GateType: 0, Events: []c17Ev{{"00000004A", 4, 1, 0}, {"0x00000004a", 4, 1, 0}, {"00000004a ", 4, 1, 0}, {"00000004a", 4, 1, 0}, {"00000005a", 5, 1, 0}},
+			ObjKinds: []int{1, 2, 0, 1, 2}, NoTS: []bool{true, false, true, true, false}},
+		c17Input{Kind: "irrid", TID: "00000004a", GateType: 1, Events: []c17Ev{{"00000004A", 4, 16, 0}, {"0000004a", 4, 16, 0}, {"00000004a", 4, 16, 0}, {"00000005a", 5, 16, 0}}, NoTS: []bool{true, true, true, true}},
+		c17Input{Kind: "minfilter", TNum: 3, Events: []c17Ev{{"2a", 2, 1, 0}, {"3a", 3, 1, 0}, {"4a", 4, 1, 0}, {"5a", 5, 1, 0}}, ObjKinds: []int{1, 1, 2, 0}, NoTS: []bool{false, true, false, true}},
+		c17Input{Kind: "tripper", ThrMs: 1000, Events: exact, ObjKinds: []int{1, 1, 1, 2, 0}},
+		// W3: the wall clock close to the threshold: at it and above = not real time, 10 s below = real time
+		c17Input{Kind: "realtime", ThrMs: H, Events: []c17Ev{{"00000002a", 2, 1, H + 59_000}, {"00000003a", 3, 1, H + 1}, {"00000004a", 4, 1, H}, {"00000005a", 5, 1, H - 10_000}, {"00000006a", 6, 1, H}}},
+		c17Input{Kind: "timegator", ThrMs: 1000, Events: []c17Ev{{"00000002a", 2, 1, 31_000}, {"00000003a", 3, 1, 1400}, {"00000004a", 4, 1, 1000}, {"00000005a", 5, 1, -9000}, {"00000006a", 6, 1, 1000}}},
 	}
 }
 
